@@ -369,6 +369,54 @@ func init() {
 					break
 				}
 			}
+			// part-count dimension: structured locations of 6..10 (thorough 16) parts: insert;delete and embed;delete at every
+			// index, and cut sets of 1..3 positions drawn from every third position
+			{
+				maxParts := 10
+				if r.Tier == "thorough" {
+					maxParts = 16
+				}
+				for parts := 6; parts <= maxParts && complete; parts++ {
+					L, locs := manyPartLocs(parts)
+					var cutsets [][]int
+					var third []int
+					for p := 1; p < L; p += 3 {
+						third = append(third, p)
+					}
+					subsetsUpTo(len(third), 3, func(s []int) {
+						cs := make([]int, len(s))
+						for k, x := range s {
+							cs[k] = third[x%len(third)]
+						}
+						sort.Ints(cs)
+						ok := true
+						for k := 1; k < len(cs); k++ {
+							if cs[k] == cs[k-1] {
+								ok = false
+							}
+						}
+						if ok {
+							cutsets = append(cutsets, cs)
+						}
+					})
+					done := r.ParallelFor(len(locs), func(li int) {
+						enc := locdom.Encode(locs[li])
+						for i := 0; i <= L; i++ {
+							for n := 1; n <= 2; n++ {
+								eval(c10Case{Op: "insert-delete", L: L, Locs: []string{enc}, I: i, N: n}, true)
+								eval(c10Case{Op: "embed-delete", L: L, Locs: []string{enc}, I: i, N: n}, true)
+							}
+						}
+						for _, cs := range cutsets {
+							eval(c10Case{Op: "cut-concat", L: L, Locs: []string{enc, "R(0," + fmt.Sprint(L) + ",0)"}, Cuts: cs, Keys: []string{"", "source"}}, true)
+						}
+					})
+					complete = complete && done
+					if done {
+						r.Extra["many_parts_completed"] = parts
+					}
+				}
+			}
 			for _, dm := range cutDoms {
 				if !complete {
 					break
